@@ -17,7 +17,8 @@ RULE = (
     "member order and stored/deflated per member; single file <-> package folder (Index.zip + loose files); per-row switch between "
     "byte and 4-byte-unit cell offsets where representable; explicit zero-cell header records added for a subset of rows without one "
     "(in index order and appended); row records of rows whose cells are all plain empty removed from their tile, numrows set to the record count "
-    "as Numbers does (fixtures, generated documents and API-built tables of 257..600 rows with blank rows inside and at the edges of tiles). Oracle: snapshot(Document(T(F))) == snapshot(Document(F)) (names, dimensions, per cell class, "
+    "as Numbers does, explicit cell-less row records added for every row of a tile that has none (in row order, or appended behind the "
+    "existing records) and the row records of a tile shuffled (fixtures, generated documents and API-built tables of 257..600 rows with blank rows inside and at the edges of tiles). Oracle: snapshot(Document(T(F))) == snapshot(Document(F)) (names, dimensions, per cell class, "
     "value, formatted value, formula, merge state, bullets, background image) and opening T(F) emits no warning that F does not; for API-generated "
     "documents the written grid must also be read back from T(F) (absolute oracle). Non-trivial: the transformation changed an "
     "object the reader consults (a list with >= 2 entries permuted, a row re-encoded, a header added, an archive re-chunked); "
@@ -36,6 +37,7 @@ SINGLE_PLANS = [
     {"offsets": "flip"}, {"offsets": "narrow"}, {"offsets": "mixed"},
     {"empty_row_headers": "sorted"}, {"empty_row_headers": "appended"},
     {"drop_empty_rows": "all"},
+    {"row_records": "add_sorted"}, {"row_records": "add_appended"}, {"row_records": "shuffle"},
 ]
 
 plans = st.fixed_dictionaries({}, optional={
@@ -48,6 +50,7 @@ plans = st.fixed_dictionaries({}, optional={
     "offsets": st.sampled_from(["flip", "narrow", "wide", "mixed"]),
     "empty_row_headers": st.sampled_from(["sorted", "appended"]),
     "drop_empty_rows": st.sampled_from(["some", "all"]),
+    "row_records": st.sampled_from(["add_sorted", "add_appended", "shuffle"]),
     "salt": st.integers(0, 10**6),
 })
 
@@ -103,7 +106,7 @@ def check_rewrite(ctx, case, src=None, base_snap=None):
             ctx.fail(("C06", "new_warning"), case, f"rewritten file warns {warn}, original {base_warn}")
         for k, v in stats.items():
             ctx.count(k, v)
-        effective = any(stats.get(k) for k in ("lists_permuted", "rows_reencoded", "empty_row_headers_added", "row_records_dropped", "archives_rechunked", "members_shuffled", "as_package"))
+        effective = any(stats.get(k) for k in ("lists_permuted", "rows_reencoded", "empty_row_headers_added", "row_records_dropped", "tiles_with_row_records_rearranged", "archives_rechunked", "members_shuffled", "as_package"))
         if effective:
             ctx.nt((case.get("fixture") or case.get("recipe") or repr(case.get("wide") or case.get("tall")), plan))
         else:
@@ -193,6 +196,8 @@ def run_task(ctx, lane, **kw):
     elif lane == "tall":
         for mode in ("all", "some"):
             check_rewrite(ctx, {"lane": "rewrite", "tall": {"rows": kw["rows"], "blank": kw["blank"]}, "plan": {"drop_empty_rows": mode, "salt": 2}})
+        for mode in ("add_appended", "shuffle"):
+            check_rewrite(ctx, {"lane": "rewrite", "tall": {"rows": kw["rows"], "blank": kw["blank"]}, "plan": {"row_records": mode, "salt": 2}})
     elif lane == "generated":
         def body(recipe):
             tmp = Path(tempfile.mkdtemp(prefix="vf_c06g_"))
